@@ -10,6 +10,15 @@ fn main() {
     if args.len() < 3 {
         usage();
     }
+    if args[1] == "zoo-status" {
+        for e in vlib::c08::zoo_entries() {
+            match &e.doc {
+                Ok(_) => println!("ok   {}", e.name),
+                Err(p) => println!("ERR  {} :: {}", e.name, p.lines().next().unwrap_or("")),
+            }
+        }
+        return;
+    }
     if args[1] == "serve-pag" {
         let rt = tokio::runtime::Builder::new_multi_thread().enable_all().build().unwrap();
         let _g = rt.enter();
@@ -66,6 +75,7 @@ fn main() {
         "C04" => vlib::routing::run(&mut ctx, vlib::routing::Mode::C04),
         "C05" => vlib::c05::run(&mut ctx),
         "C06" => vlib::c06::run(&mut ctx),
+        "C08" => vlib::c08::run(&mut ctx),
         "C09" => vlib::c09::run(&mut ctx),
         "C10" => vlib::c10::run(&mut ctx),
         "C11" => vlib::c11::run(&mut ctx),
